@@ -164,6 +164,60 @@ CHECKS["C20"] = dict(
          "are not asserted, as the property says",
     design_ref="DESIGN.md section 2, C20")
 
+CHECKS["C02"] = dict(
+    technique="runtime monitoring: sanitized solver driven by scenarios with "
+              "unknown/correlated parameters from the independent E-term "
+              "model; watchdog for termination; offline oracle on values",
+    text="Analytic TRL (2x2 T8/U8/TE10/UE10) and Levenberg-Marquardt solves "
+         "(all types, 1..3 unknowns, tolerances 1e-4..1e-12, iteration "
+         "limits 1..100, with/without weighting): every call must return, a "
+         "failure must be -1/EDOM with one MATH message, a success must give "
+         "the true parameter values and a correct device within 30*tol + "
+         "1e-10(1+kappa); an aggregate convergence floor guards against a "
+         "solver that never converges.",
+    note="termination restated as 'returns within the watchdog'; guesses are "
+         "generated inside the basin by construction (nearer the true TRL "
+         "root; within 0.02..0.1 for LM); square shapes for LM",
+    design_ref="DESIGN.md section 2, C02")
+CHECKS["C13"] = dict(
+    technique="runtime monitoring: reference-model monitor (pylib/docmodel.py "
+              "from vnaproperty(3)) compared after every operation of "
+              "bounded-exhaustive and random histories; ASan/LSan",
+    text="Every sequence of <= 4 operations over a 40-letter alphabet of "
+         "(operation, descriptor) pairs from four start trees (thorough; "
+         "sampled in quick) plus 200-operation random histories, also "
+         "through vnacal_property_* on the global root: return value, errno "
+         "class and tree hash must equal the document model after every "
+         "operation; quote_key must address exactly its key.",
+    note="trusted: the transcription of vnaproperty(3); combinations the "
+         "manual leaves open are compared as unspecified; per-calibration "
+         "roots are not exercised",
+    design_ref="DESIGN.md section 2, C13")
+CHECKS["C14"] = dict(
+    technique="runtime monitoring: generated trees exported and re-imported "
+              "through the real YAML code paths; offline comparison of "
+              "public-getter dumps",
+    text="Random trees of depth <= 6 with hostile keys and scalars (YAML "
+         "look-alikes, control characters, NEL/LS/BOM, long and multi-line "
+         "text, UTF-8) are exported and imported from file and string and "
+         "through vnacal_save/vnacal_load; the dump after import must equal "
+         "the dump before export byte for byte (key order as a set).",
+    note="only valid UTF-8 is generated; invalid byte strings belong to C09",
+    design_ref="DESIGN.md section 2, C14")
+CHECKS["C18"] = dict(
+    technique="runtime monitoring: deterministic exact-data twin runs plus "
+              "aggregate statistics of accept/reject events under calibrated "
+              "Gaussian noise",
+    text="Exact over-determined data with m_error enabled must solve and "
+         "correct like the unweighted run, and disabling must restore it bit "
+         "for bit; with noise of exactly the declared size the rejection "
+         "rate per (type, regime) at significance 0.05 must lie in [1 %, "
+         "20 %] (widened binomially); a redundant standard displaced by 100 "
+         "sigma must be rejected in >= 90 %.",
+    note="statistical clauses use wide bounds; only gross mis-weighting, "
+         "wrong degrees of freedom or a broken p-value are detectable",
+    design_ref="DESIGN.md section 2, C18")
+
 NOT_YET = {}
 
 
